@@ -69,6 +69,10 @@ def work(shard, rec):
             if rnd.random() < 0.12:   # duplicate
                 entries.append(e)
                 meta.append((valid, tuple(b), large))
+            if rnd.random() < 0.06 and isinstance(e, list):   # the very same entry object a second time
+                entries.append(e)
+                meta.append((valid, tuple(b), large))
+                rec.count("same_entry_object_twice")
             if rnd.random() < 0.15:   # twin: the same colours in the same notation at the *other* text size
                 twin = (e[0], e[1], not large) if (large or rnd.random() < 0.5) else (e[0], e[1])
                 tl = twin[2] if len(twin) == 3 else False
